@@ -578,6 +578,7 @@ def _find_def(body, name):
 def load_function(qualname: str, which: Optional[int] = None):
     """qualname: '<module>:<Class>.<func>' or '<module>:<func>.<locals>.<inner>'.
     For property setters use '<Class>.<name>@setter'.  Returns (node, module_name)."""
+    qualname = qualname.split("#")[0]  # `<qualname>#<variant>`: a second contract binding of the same real function
     modname, path = qualname.split(":")
     tree = load_module(modname)
     body = tree.body
